@@ -311,6 +311,26 @@ def desugar_all(J):
     total = 0
     names = set(BYVAL) | set(BYREF)
     for b in order:
+        if any(blk['term']['k'] == 'call' and (blk['term']['callee'].get('path') or '').endswith('IntoIterator::into_iter') for blk in b['blocks']):
+            nb = copy.deepcopy(b)
+            try:
+                n = unroll_array_for(nb)
+            except Exception:
+                n = 0
+            if n:
+                b.clear()
+                b.update(nb)
+                total += n
+        if any(blk['term']['k'] == 'call' and blk['term']['callee'].get('trait') == 'core::iter::Extend' for blk in b['blocks']):
+            nb = copy.deepcopy(b)
+            try:
+                n = extend_map(nb, bodies)
+            except Exception:
+                n = 0
+            if n:
+                b.clear()
+                b.update(nb)
+                total += n
         if not any(blk['term']['k'] == 'call' and blk['term']['callee'].get('trait') == 'core::iter::Iterator' and blk['term']['callee'].get('name') in names
                    for blk in b['blocks']):
             continue
@@ -324,3 +344,281 @@ def desugar_all(J):
             b.update(nb)
             total += n
     return total
+
+
+# ---------------------------------------------------------------------- `for x in [a, b, ..]` over an array literal
+def _succ(t):
+    return [x for x in ([t.get('target'), t.get('otherwise')] + [tg for _, tg in t.get('arms', [])]) if x is not None]
+
+
+def _retarget(t, f):
+    t = dict(t)
+    if t.get('target') is not None:
+        t['target'] = f(t['target'])
+    if t.get('otherwise') is not None:
+        t['otherwise'] = f(t['otherwise'])
+    if 'arms' in t:
+        t['arms'] = [[v, f(tg)] for v, tg in t['arms']]
+    return t
+
+
+def _iter_root(j, op, depth=6):
+    """the local an `&mut it` argument finally points at (through reborrows)"""
+    for _ in range(depth):
+        if op.get('k') not in ('move', 'copy'):
+            return None
+        p = op['p']
+        if [x for x in p['pr'] if x != '*']:
+            return None
+        d = _single_def(j, p['l'])
+        if not d or d[0] != 'assign':
+            return None
+        r = d[1]
+        if r.get('k') == 'ref':
+            q = r['p']
+            if [x for x in q['pr'] if x != '*']:
+                return None
+            if not q['pr']:
+                return q['l']
+            op = {'k': 'copy', 'p': {'l': q['l'], 'pr': []}}
+            continue
+        if r.get('k') == 'use':
+            op = r['a']
+            continue
+        return None
+    return None
+
+
+def unroll_array_for(j, maxn=8):
+    """A `for` loop over an array literal of at most maxn elements is the loop body written out once per element.  The loop is
+    replaced by that sequence (element k bound where `next()` would have produced it, `continue` edges go on to element k+1,
+    edges leaving the loop are kept).  Returns the number of loops rewritten; shapes that are not recognised are left alone."""
+    from .thread import _blank_dead
+    done = 0
+    for bi in range(len(j['blocks'])):
+        blocks = j['blocks']
+        t = blocks[bi]['term']
+        if t['k'] != 'call' or not (t['callee'].get('path') or '').endswith('IntoIterator::into_iter') or len(t['args']) != 1 or t['dest']['pr'] or t.get('target') is None:
+            continue
+        a = t['args'][0]
+        if a.get('k') != 'move' or a['p']['pr']:
+            continue
+        arr_l = a['p']['l']
+        asg = [(si, st) for si, st in enumerate(blocks[bi]['stmts']) if st['k'] == 'assign' and st['p']['l'] == arr_l and not st['p']['pr']]
+        d = _single_def(j, arr_l)
+        if len(asg) != 1 or not d or d[0] != 'assign' or d[1].get('k') != 'agg' or d[1].get('agg') != 'array':
+            continue
+        ops = d[1]['ops']
+        n = len(ops)
+        if not (1 <= n <= maxn):
+            continue
+        # the iterator local: the destination, or the local it is moved into
+        it = t['dest']['l']
+        itl = {it}
+        nb = blocks[t['target']]
+        for st in nb['stmts']:
+            if st['k'] == 'assign' and not st['p']['pr'] and st['r'].get('k') == 'use' and st['r']['a'].get('k') == 'move' and st['r']['a']['p'] == {'l': it, 'pr': []}:
+                itl.add(st['p']['l'])
+        heads = [x for x, blk in enumerate(blocks) if blk['term']['k'] == 'call' and (blk['term']['callee'].get('path') or '').endswith('Iterator::next')
+                 and len(blk['term']['args']) == 1 and _iter_root(j, blk['term']['args'][0]) in itl and not blk['term']['dest']['pr']]
+        if len(heads) != 1:
+            continue
+        H = heads[0]
+        ht = blocks[H]['term']
+        T = ht['target']
+        if T is None:
+            continue
+        nd = ht['dest']['l']
+        tb = blocks[T]
+        tt = tb['term']
+        dd = [st for st in tb['stmts'] if st['k'] == 'assign' and st['r'].get('k') == 'discr' and st['r']['p'] == {'l': nd, 'pr': []} and not st['p']['pr']]
+        if tt['k'] != 'switch' or len(dd) != 1 or tt['discr'].get('k') not in ('move', 'copy') or tt['discr']['p'] != dd[0]['p']:
+            continue
+        arms = dict((v, tg) for v, tg in tt['arms'])
+        if 0 not in arms or 1 not in arms:
+            continue
+        # the loop: blocks reachable from H that reach H again
+        fwd, stk = {H}, [H]
+        while stk:
+            x = stk.pop()
+            for y in _succ(blocks[x]['term']):
+                if y not in fwd and not blocks[y]['cleanup']:
+                    fwd.add(y)
+                    stk.append(y)
+        preds = {}
+        for x, blk in enumerate(blocks):
+            for y in _succ(blk['term']):
+                preds.setdefault(y, set()).add(x)
+        entry = {bi, t['target']} - {H}
+        back, stk = {H}, [H]
+        while stk:
+            x = stk.pop()
+            for y in preds.get(x, ()):
+                if y in entry:
+                    continue        # the way into the loop (it may be nested in another loop)
+                if y not in back and y in fwd:
+                    back.add(y)
+                    stk.append(y)
+        L = sorted(fwd & back)
+        if T not in L or arms[1] not in L or arms[0] in L or len(L) > 200:
+            continue
+        # the iterator must not be touched inside the loop other than by the header's next()
+        def touches_iter(x):
+            blk = blocks[x]
+            for st in blk['stmts']:
+                if st['k'] == 'assign' and (st['p']['l'] in itl or (isinstance(st['r'].get('p'), dict) and st['r']['p']['l'] in itl and x != H)):
+                    return True
+            return False
+        if any(touches_iter(x) for x in L):
+            continue
+        loc = t.get('loc')
+        # element values, captured where the array is built
+        L_ = j['locals']
+        ety = None
+        import re
+        m = re.match(r'^\[(.+); \d+\]$', L_[arr_l].get('ty', ''))
+        ety = m.group(1) if m else L_[nd].get('ty', '')
+        elts = []
+        ins = []
+        for k, o in enumerate(ops):
+            L_.append({'ty': ety, 'names': [], 'mut': False})
+            e = len(L_) - 1
+            elts.append(e)
+            ins.append({'k': 'assign', 'p': _pl(e), 'r': _use({'k': 'copy', 'p': o['p']} if o.get('k') in ('move', 'copy') else o), 'loc': loc})
+        si = asg[0][0]
+        blocks[bi]['stmts'] = blocks[bi]['stmts'][:si] + ins + blocks[bi]['stmts'][si:]
+        # copies
+        base = len(blocks)
+        per = len(L)
+        idx = {x: i for i, x in enumerate(L)}
+        final = base + n * per
+        for k in range(n):
+            off = base + k * per
+            nxt_head = base + (k + 1) * per + idx[H] if k + 1 < n else final
+
+            def f(y, off=off, nxt_head=nxt_head):
+                if y == H:
+                    return nxt_head
+                return off + idx[y] if y in idx else y
+            for x in L:
+                c = copy.deepcopy(blocks[x])
+                if x == H:
+                    c['stmts'] = c['stmts'] + [{'k': 'assign', 'p': _pl(nd), 'r': _opt('Some', [{'k': 'copy', 'p': _pl(elts[k])}]), 'loc': loc}]
+                    c['term'] = {'k': 'goto', 'target': off + idx[T], 'loc': ht.get('loc')}
+                elif x == T:
+                    c['term'] = {'k': 'goto', 'target': f(arms[1]), 'loc': tt.get('loc')}
+                else:
+                    c['term'] = _retarget(c['term'], f)
+                c['unrolled_from'] = x
+                blocks.append(c)
+        # after the last element: next() is None
+        fin = {'cleanup': False, 'stmts': [{'k': 'assign', 'p': _pl(nd), 'r': _opt('None', []), 'loc': loc}] + copy.deepcopy(tb['stmts']),
+               'term': {'k': 'goto', 'target': arms[0], 'loc': tt.get('loc')}, 'unrolled_from': T}
+        blocks.append(fin)
+        assert len(blocks) - 1 == final
+        # entries
+        first = base + idx[H]
+        for x in range(base):
+            if x in idx:
+                continue
+            blocks[x]['term'] = _retarget(blocks[x]['term'], lambda y: first if y == H else y)
+        _blank_dead(j)
+        done += 1
+    return done
+
+
+# ---------------------------------------------------------------------- `vec.extend(it.map(|x| f(x)))`
+def extend_map(j, bodies):
+    """`v.extend(it.map(g))` with a closure literal g is `for x in it { v.push(g(x)) }`: same calls of g, same pushes, same order
+    (Vec's Extend pushes the items one by one as the iterator yields them).  Rewritten to that loop."""
+    n = 0
+    cd = None
+    for bi in range(len(j['blocks'])):
+        t = j['blocks'][bi]['term']
+        if t['k'] != 'call' or t.get('target') is None:
+            continue
+        c = t['callee']
+        if c.get('trait') != 'core::iter::Extend' or c.get('name') != 'extend' or not (c.get('self_ty') or '').startswith('alloc::vec::Vec<') or len(t['args']) != 2:
+            continue
+        dstop, m = t['args']
+        if m.get('k') != 'move' or m['p']['pr'] or dstop.get('k') not in ('move', 'copy') or dstop['p']['pr']:
+            continue
+        mb = [x for x, blk in enumerate(j['blocks']) if blk['term']['k'] == 'call' and blk['term']['dest'] == m['p']]
+        if len(mb) != 1 or _single_def(j, m['p']['l']) is None:
+            continue
+        mb = mb[0]
+        mt = j['blocks'][mb]['term']
+        mc = mt['callee']
+        if mc.get('trait') != 'core::iter::Iterator' or mc.get('name') != 'map' or len(mt['args']) != 2 or mt.get('target') is None:
+            continue
+        it, f = mt['args']
+        if f.get('k') not in ('move', 'copy') or f['p']['pr']:
+            continue
+        if cd is None:
+            cd = _closure_defs(j)
+        ds = cd.get(f['p']['l'], [])
+        if len(ds) != 1 or ds[0] is None or ds[0] not in bodies:
+            continue
+        cj = bodies[ds[0]]
+        if cj['arg_count'] != 2:
+            continue
+        loc = t['loc']
+        L = j['locals']
+
+        def new(ty):
+            L.append({'ty': ty, 'names': [], 'mut': True})
+            return len(L) - 1
+
+        def newblock(stmts, term):
+            j['blocks'].append({'cleanup': False, 'stmts': stmts, 'term': term})
+            return len(j['blocks']) - 1
+        self_ty = mc.get('self_ty') or '?'
+        item_ty = cj['locals'][2]['ty']
+        elem_ty = cj['locals'][0]['ty']
+        IT = new(self_ty)
+        RF = new('&mut ' + self_ty)
+        # the map call becomes the binding of the underlying iterator
+        j['blocks'][mb]['stmts'] = j['blocks'][mb]['stmts'] + [_asg(IT, _use(it), loc), _asg(RF, {'k': 'ref', 'mut': True, 'p': _pl(IT)}, loc)]
+        j['blocks'][mb]['term'] = {'k': 'goto', 'target': mt['target'], 'loc': mt.get('loc')}
+        NX = new('core::option::Option<%s>' % item_ty)
+        DS = new('isize')
+        X = new(item_ty)
+        R = new(elem_ty)
+        U = new('()')
+        dest, T = t['dest'], t['target']
+        unr = newblock([], {'k': 'unreachable', 'loc': loc})
+        XB = newblock([{'k': 'assign', 'p': dest, 'r': _use(_cst('()', None, '()')), 'loc': loc}], {'k': 'goto', 'target': T, 'loc': loc})
+        nc = {'path': 'core::iter::Iterator::next', 'full': '<%s as core::iter::Iterator>::next' % self_ty, 'gargs': [self_ty], 'local': False,
+              'name': 'next', 'unsafe': False, 'output': 'core::option::Option<%s>' % item_ty, 'abi': 'Rust', 'trait': 'core::iter::Iterator',
+              'self_ty': self_ty, 'resolved_local': False}
+        H = newblock([], None)
+        SW = newblock([_asg(DS, {'k': 'discr', 'p': _pl(NX), 'of': 'core::option::Option<%s>' % item_ty}, loc)], None)
+        j['blocks'][H]['term'] = {'k': 'call', 'callee': nc, 'args': [{'k': 'copy', 'p': _pl(RF)}], 'dest': _pl(NX), 'target': SW, 'unwind': None, 'loc': loc}
+        loff = len(L)
+        AFT = newblock([], None)
+        BB = newblock([], None)
+        boff = len(j['blocks'])
+        poff = len(j.get('promoted', []))
+        for i, l in enumerate(cj['locals']):
+            l = dict(l)
+            if i <= cj['arg_count']:
+                l['names'] = [] if i <= 1 else l.get('names', [])
+            L.append(l)
+        j['promoted'] = list(j.get('promoted', [])) + list(cj.get('promoted', []))
+        for blk in copy.deepcopy(cj['blocks']):
+            j['blocks'].append(_remap_block(blk, loff, boff, poff, AFT, _pl(R), loff))
+        some0 = [{'dc': 'Some'}, {'f': '0', 'i': 0, 'of': 'core::option::Option', 'ty': item_ty}]
+        j['blocks'][BB]['stmts'] = [_asg(X, _use({'k': 'move', 'p': _pl(NX, some0)}), loc),
+                                    _asg(loff + 1, _use({'k': 'copy', 'p': f['p']}), loc),
+                                    _asg(loff + 2, _use({'k': 'copy', 'p': _pl(X)}), loc)]
+        j['blocks'][BB]['term'] = {'k': 'goto', 'target': boff, 'loc': loc}
+        j['blocks'][SW]['term'] = {'k': 'switch', 'discr': {'k': 'move', 'p': _pl(DS)}, 'discr_ty': 'isize', 'arms': [[0, XB], [1, BB]], 'otherwise': unr, 'loc': loc}
+        vec_ty = c.get('self_ty')
+        pc = {'path': 'alloc::vec::Vec::<T, A>::push', 'full': '%s::push' % vec_ty.replace('Vec<', 'Vec::<', 1), 'gargs': [elem_ty, 'alloc::alloc::Global'], 'local': False,
+              'name': 'push', 'unsafe': False, 'output': '()', 'abi': 'Rust', 'self_ty': vec_ty}
+        j['blocks'][AFT]['term'] = {'k': 'call', 'callee': pc, 'args': [{'k': 'copy', 'p': dstop['p']}, {'k': 'move', 'p': _pl(R)}], 'dest': _pl(U), 'target': H, 'unwind': None, 'loc': loc}
+        j['blocks'][bi]['term'] = {'k': 'goto', 'target': H, 'loc': loc}
+        j.setdefault('desugared', []).append(['extend/map', ds[0]])
+        cd = None
+        n += 1
+    return n
